@@ -4,7 +4,7 @@
 From Coq Require Import List NArith Bool Arith Sorted.
 From Coq Require Import Strings.Byte.
 Require Import BS.Bytes BS.Common BS.Api BS.Layout BS.Format BS.FormatFacts BS.Spec BS.SpecStep.
-Require Import BS.FS BS.FSFacts BS.Meta BS.MetaFacts BS.Header BS.Reader BS.ReaderFacts BS.Index BS.Data BS.DataFacts BS.Seek BS.Series BS.SeriesFacts BS.ReadAllFacts BS.TotalFacts BS.ExtractFacts BS.HeaderFacts BS.LastMetaFacts BS.OpenFacts BS.Sections.
+Require Import BS.FS BS.FSFacts BS.Meta BS.MetaFacts BS.Header BS.Reader BS.ReaderFacts BS.Index BS.Data BS.DataFacts BS.Seek BS.Series BS.SeriesFacts BS.ReadAllFacts BS.TotalFacts BS.ExtractFacts BS.HeaderFacts BS.LastMetaFacts BS.OpenFacts BS.TornFacts BS.TornGenFacts BS.Sections.
 Import ListNotations.
 
 
@@ -93,6 +93,25 @@ Theorem C04_reopen_small_payload : forall p fs s uhdr name popt hdropt cb l,
     /\ of_name (d_file (s_data s')) = name ++ ext_data /\ of_name (ix_file (d_index (s_data s'))) = name ++ ext_index.
 Proof. exact reopen_nm. Qed.
 Print Assumptions C04_reopen_small_payload.
+
+(* every payload size under the single condition nm_sec (the tail condition follows from it: C04_tail_clean_nm) *)
+Theorem C04_reopen_any_payload : forall p fs s uhdr name popt hdropt cb l,
+  let header := params_to_text BSgen.Consts.version (N.of_nat p) ++ uhdr in
+  RepH fs s p (outer header) (outer []) l ->
+  of_name (d_file (s_data s)) = name ++ ext_data -> of_name (ix_file (d_index (s_data s))) = name ++ ext_index ->
+  (len header <= 65535)%N -> (len (encode p l) < 2^64)%N -> (N.of_nat p < 2^64)%N ->
+  (popt = None \/ popt = Some (N.of_nat p)) ->
+  Forall (nm_sec p) (secs_of l) ->
+  match hdropt with HdrIs e => e = uhdr | HdrAny => True end ->
+  exists s', builder_open name popt hdropt [] cb fs = (fs, Ok (s', uhdr))
+    /\ RepH fs s' p (outer header) (outer []) l /\ s_cb s' = cb
+    /\ of_name (d_file (s_data s')) = name ++ ext_data /\ of_name (ix_file (d_index (s_data s'))) = name ++ ext_index.
+Proof. exact reopen_all_payloads. Qed.
+Print Assumptions C04_reopen_any_payload.
+
+Theorem C04_tail_clean_nm : forall p l, wf_series p l -> l <> [] -> Forall (nm_sec p) (secs_of l) -> tail_clean p (encode p l).
+Proof. exact tail_clean_nm. Qed.
+Print Assumptions C04_tail_clean_nm.
 
 (* the backwards window search finds the last full timestamp, whatever the length of the file *)
 Theorem C04_last_meta : forall p l, wf_series p l -> Forall (nm_sec p) (secs_of l) ->
